@@ -211,17 +211,28 @@ def read_results(t, i):
 
 def mon_C02(t):
     out = []
-    last_delete = {}       # key -> index of the last completed delete() call
+    last_delete = {}           # key -> index of the last completed delete() call
     last_upsert_present = {}   # key -> index of the last upsert-with-value that hit a physically present key
+    applied = {}               # (key, value) -> index of the event that made the value visible
     for i, r in enumerate(t.recs):
         if r["skipped"]:
             continue
         p = r["ev"].split()
-        if p[0] == "call" and r["ret"] and r["ret"][0] in (0, 1):
-            if p[2] == "delete":
+        if p[0] == "call" and r["ret"] and r["ret"][0] in (0, 1, 3):
+            if p[2] == "delete" and r["ret"][0] != 3:
                 last_delete[int(p[3])] = i
+            # (a caller parked in front of the full queue has already updated the entry)
             if p[2] == "upsert" and p[4] != "-" and int(p[3]) in t.store_before(i):
                 last_upsert_present[int(p[3])] = i
+                applied[(int(p[3]), int(p[4]))] = i
+        if p[0] == "worker" and i in t.executed and t.executed[i] in t.ack_call:
+            a = t.executed[i]
+            ci, call = t.ack_call[a]
+            if (call[0].startswith("put") or (call[0] == "upsert" and not t.ack_is_update.get(a))) and a < len(r["acks"]) and r["acks"][a] == 1:
+                k = key_of_call(call)
+                v = int(call[2]) if call[0] != "upsert" else (int(call[2]) if call[2] != "-" else None)
+                if v is not None:
+                    applied[(k, v)] = i
         reads = read_results(t, i)
         if not reads:
             continue
@@ -235,15 +246,14 @@ def mon_C02(t):
                 out.append(fail(t, i, "foreign-or-unwritten-value", "read of key %d returned %d, which was %s" % (
                     k, v, "written to key %s" % foreign if foreign else "never written")))
                 continue
-            wi = w[(k, v)]
-            if k in last_delete and wi < last_delete[k]:
-                # a value written before a completed delete; legitimate only if its put was still queued at the delete
-                # and applied afterwards (the delete then hid nothing of it)
-                applied_after = any(t.executed.get(j) in t.ack_call and t.ack_call[t.executed[j]][0] == wi and j > last_delete[k]
-                                    for j in range(last_delete[k], i))
-                if not applied_after:
-                    out.append(fail(t, i, "deleted-value-returned", "read of key %d returned %d after delete(%d) had returned" % (k, v, k)))
-            if k in last_upsert_present and wi < last_upsert_present[k]:
+            ai = applied.get((k, v))
+            if ai is None:
+                out.append(fail(t, i, "unapplied-value-returned", "read of key %d returned %d, whose put was never acknowledged as accepted" % (k, v)))
+                continue
+            # a value that became visible before a delete() of its key returned, or before a later overwrite returned
+            if k in last_delete and ai < last_delete[k]:
+                out.append(fail(t, i, "deleted-value-returned", "read of key %d returned %d after delete(%d) had returned" % (k, v, k)))
+            if k in last_upsert_present and ai < last_upsert_present[k]:
                 out.append(fail(t, i, "superseded-value-returned", "read of key %d returned %d although a later put_or_update had replaced it" % (k, v)))
             # all variants read one and the same store
             if k in sb and sb[k][1] != v:
